@@ -6,10 +6,12 @@ ID = "C09"
 LEVEL = "proof"
 LEAN_IMPORTS = ["WM.Props.C09"]
 THEOREMS = ["WM.C09.scores", "WM.C09.score_of_entry", "WM.C09.collector_independent", "WM.C09.models",
-            "WM.C09.layout", "WM.C09.layout_models", "WM.C09.lengthbyte"]
+            "WM.C09.layout", "WM.C09.layout_models", "WM.C09.lengthbyte", "WM.C09.cursor_scores",
+            "WM.C09.search_limit"]
 _LIST = ("list level: about WM.Compile.compile (the (doc, score) list a per-segment matcher tree enumerates), not "
          "about the cursors' score()/block_quality()/skip_to_quality of whoosh/matching (C11/C12; Lean bridge "
-         "WM.C01.cursor_den for leaves and boolean constructors only); hypotheses PosQ/PosLeaf (boosts and leaf "
+         "WM.C09.cursor_scores: score() of the cursor tree after any next/skip_to/replace program is scoreOf, for "
+         "the fragment CursorOK - no Phrase, numeric range, unscored array union); hypotheses PosQ/PosLeaf (boosts and leaf "
          "scores > 0) exclude ReverseWeighting, PL2/DFree where a term score is <= 0, and zero boosts - there the "
          "array union drops documents (finding ArrayUnionMatcher:document-with-non-positive-accumulated-score-"
          "is-dropped). ")
@@ -19,11 +21,22 @@ PARTIAL = {
                      "FunctionWeighting, MultiWeighting, ReverseWeighting and the final() hook have no Lean "
                      "formula and are compared end-to-end against reference formulas evaluated in the harness.",
     "WM.C09.score_of_entry": _LIST,
+    "WM.C09.cursor_scores": "fragment CursorOK (see C01 cursor_den: term/null/Every leaves, multi-term expansions, boolean "
+                            "constructors, union trees, scored array union over plain term matchers; not Phrase, "
+                            "numeric ranges, the unscored array union), scored contexts, hypotheses PosQ/PosLeaf/"
+                            "ValidOracle; programs of next/skip_to/replace() only (skip_to_quality and replace(q) are "
+                            "C12's contract, composed for top-N by search_limit); the cursor constructors are the "
+                            "matcher family's model.",
     "WM.C09.collector_independent": _LIST + "'collector' = needs_current (terms=True vs plain search) x tree-shape "
                                     "oracle, the only way a collector reaches Query.matcher; top-N/limit, quality "
                                     "skipping, replace() (C05) and sorting/filtering/collapsing collectors (C14) "
                                     "are not in the statement; the ranked-result conjunct is a fact about the "
                                     "specification's rankAll.",
+    "WM.C09.search_limit": _LIST + "composition of C05.topk/unlimited (the collector family's TopCollector / "
+                           "UnlimitedCollector model under every schedule of drops within the C12 contract) with "
+                           "scores/segments: the collector's input is the compiled per-segment lists; filter, mask, "
+                           "collapse, sortedby and groupedby are not in the statement (C05.with_wrappers_partial, "
+                           "C14).",
     "WM.C09.models": _LIST + "idf is an abstract positive function (whoosh: log(N/(df+1))+1 resp. "
                      "log(1+(N-df+0.5)/(df+0.5)), real-valued; the driver is handed the float idf values as "
                      "rationals); BM25F/TF_IDF/Frequency only; scores over Rat, compared with 1e-9 relative "
@@ -34,7 +47,9 @@ PARTIAL = {
                      "'weighting' = any function of (termStats, stored weight, approximated field length).",
     "WM.C09.layout_models": "as layout, for the TF_IDF and BM25F leaf scorers of WM.Spec.SearchStats",
 }
-RULE = ("random schema/corpus/history/query tree per sub-seed (streams: exact Frequency; table = BM25F/TF_IDF/Multi; "
+RULE = ("random schema/corpus/history/query tree per sub-seed (streams: exact Frequency; table = BM25F/TF_IDF/Multi, "
+        "BM25F with model-wide B in {0, .5, .75, 1}, K1 in {.5, 1.2, 2} and independent per-field <field>_B in "
+        "{0.0, .25, .5, .9, 1.0} for t/u/k/x; "
         "final() hook reading the stored key; other = Function/PL2/DFree/Reverse; layout = same documents, two "
         "commit/merge partitions); a case = (index, query, scored path) or "
         "(segment, query, context) for the matcher stepping; exact stream: scoring.Frequency with dyadic "
@@ -65,7 +80,10 @@ MANIFEST = {
     "level_text": "Lean theorems over the list-level denotational model of Query.matcher(): in every scored "
                   "context, for every tree shape and Or strategy, the compiled per-segment list is exactly the "
                   "specified (doc, scoreOf) list (scores), a document's score is the same whatever the collector "
-                  "and depends on that document alone (collector_independent), Frequency/TF_IDF/BM25F on global statistics "
+                  "and depends on that document alone (collector_independent), score() of the cursor tree after any "
+                  "next/skip_to/replace program is scoreOf of the document it stands on (cursor_scores, with C11), "
+                  "search(limit=k) through the TopCollector model under every drop schedule returns the k best by "
+                  "scoreOf incl. a final() hook (search_limit, with C05), Frequency/TF_IDF/BM25F on global statistics "
                   "satisfy the hypotheses (models), collection statistics and hence all leaf "
                   "scores are the same for every segment layout of the same documents without deletions (layout), "
                   "and the length-byte approximation "
@@ -94,14 +112,27 @@ def wspec_other(rng):
                        ("reverse", ("bm25f", 0.75, 1.2, {})), ("reverse", ("tfidf",))])
 
 
+def field_bs(rng):
+    """per-field B keyword arguments of BM25F (`<field>_B`) for the scorable fields a schema may have
+    (unknown ones are harmless), biased to the boundary values 0.0 - which is falsy - and 1.0"""
+    fb = {}
+    for f in ("t", "u", "k", "x"):
+        if rng.random() < 0.45:
+            fb[f] = rng.choice([0.0, 0.0, 1.0, 0.25, 0.5, 0.9])
+    return fb
+
+
 def wspec_for(rng):
     r = rng.random()
-    if r < 0.4:
-        return ("bm25f", rng.choice([0.75, 0.0, 1.0, 0.5]), rng.choice([1.2, 2.0, 0.5]),
-                {"t": rng.choice([1.0, 0.25])} if rng.random() < 0.4 else {})
-    if r < 0.7:
+    if r < 0.5:
+        # model-wide B and per-field Bs chosen independently, so that a field's own B (0.0 included) differs
+        # from the default it must override
+        return ("bm25f", rng.choice([0.75, 0.75, 0.0, 1.0, 0.5]), rng.choice([1.2, 2.0, 0.5, 1.2]),
+                field_bs(rng) if rng.random() < 0.7 else {})
+    if r < 0.72:
         return ("tfidf",)
-    return ("multi", ("bm25f", 0.75, 1.2, {}), {"u": ("tfidf",), "k": ("freq",)})
+    return ("multi", ("bm25f", 0.75, 1.2, field_bs(rng) if rng.random() < 0.5 else {}),
+            {"u": ("tfidf",), "k": ("freq",)})
 
 
 def lengthbyte(ctx):
@@ -151,7 +182,7 @@ def run(ctx):
         base = {"scratch": scratch, "scores": True, "corr": True, "paths": SCORED_PATHS}
         rng = ctx.rng("weightings")
         exact = [("%s:%d:x%d" % (ctx.pid, ctx.seed, i),
-                  dict(base, nq=8, mode="freq", weighting=("freq",), hyp=True))
+                  dict(base, nq=8, mode="freq", weighting=("freq",), hyp=True, plant=0.3))
                  for i in range(ctx.budget(260, 2400))]
         table = []
         for i in range(ctx.budget(150, 1500)):
@@ -174,15 +205,16 @@ def run(ctx):
                           dict(base, nq=6, mode="table", weighting=w, longdocs=True,
                                corr_nc=(0, 1) if w[0] == "function" else (1,))))
         huge = [("%s:%d:huge%d" % (ctx.pid, ctx.seed, i),
-                 dict(base, nq=3, mode="freq", weighting=("freq",), ndocs=2300, nseg=1, maxdepth=3, max_shrinks=2,
-                      vocab_n=40, sparse_or=3))
+                 dict(base, nq=2, mode="freq", weighting=("freq",), ndocs=2300, nseg=1, maxdepth=3, max_shrinks=2,
+                      vocab_n=40, sparse_or=2))
                 for i in range(ctx.budget(2, 8))]
         jobs = corpus_jobs(ID, scratch) + huge + interleave(exact, table, final, other)
         deadline = 40 if ctx.tier == "quick" else 450
         jobs, results = run_jobs(ctx, jobs, deadline)
         # C09.layout: the same documents under two segment layouts (no deletions)
         lay = [("%s:%d:L%d" % (ctx.pid, ctx.seed, i), {"scratch": scratch,
-                "weighting": rng.choice([("bm25f", 0.75, 1.2, {}), ("tfidf",), ("bm25f", 1.0, 2.0, {"t": 0.5})])})
+                "weighting": rng.choice([("bm25f", 0.75, 1.2, {}), ("tfidf",), ("bm25f", 1.0, 2.0, {"t": 0.5}),
+                                         ("bm25f", 0.75, 1.2, {"t": 0.0, "u": 1.0})])})
                for i in range(ctx.budget(60, 600))]
         _, lres = run_jobs(ctx, lay, deadline + (10 if ctx.tier == "quick" else 90), fn=G.layout_work)
     for (sd, o), r in zip(jobs, results):
